@@ -107,7 +107,8 @@ func (r roots) lookup(t *iTree, method, hostPort, path string, c *cTx, lazy bool
 	}
 
 	host := netutil.StripHostPort(hostPort)
-	if host != "" {
+	// A hostname has no slash: such a host is left to the path-only routes, it must not be walked into their subtree.
+	if host != "" && strings.IndexByte(host, slashDelim) < 0 {
 		// Try first by domain
 		n, tsr = lookupByDomain(t, r[index], host, path, c, lazy)
 		if n != nil {
